@@ -789,6 +789,14 @@ def _structural(rec):
         'nan-entry': dict(good, x2=[1.0, float('nan'), 2.0, 0.5, 1.0]),
         'none-entry': dict(good, x2=[1.0, None, 2.0, 0.5, 1.0]),
         'empty-table': {c: [] for c in G.COLUMNS},
+        # non-numeric columns under the other dtypes pandas gives to text: categories, the string extension type, bytes,
+        # dates; mixed content
+        'non-numeric-column:category': dict(good, x1=pd.Categorical(['a', 'b', 'a', 'c', 'b'])),
+        'non-numeric-column:string-dtype': dict(good, x1=pd.array(['a', 'b', 'c', 'd', 'e'], dtype='string')),
+        'non-numeric-column:bytes': dict(good, x1=[b'a', b'b', b'c', b'd', b'e']),
+        'non-numeric-column:dates': dict(good, x1=pd.to_datetime(['2020-01-01'] * 5)),
+        'non-numeric-column:mixed': dict(good, x1=[1.0, 'b', 2.0, 3.0, 4.0]),
+        'non-numeric-column:unused-column': dict(good, unused=pd.Categorical(['a', 'b', 'a', 'c', 'b'])),
     }.items():
         def mk(frame=frame):
             d = bdb.Database('bad', pd.DataFrame(frame))
